@@ -72,9 +72,11 @@ CLAIM = {
              "retrievable entries — proved for LRUBytes, for the TTL LRU with an arbitrary clock and invalidation schedule, and for the "
              "switched-off cache), ANY stage and ANY history of requests interleaved with other cache operations, a sufficient key makes "
              "the cached run equal the uncached run, and an insufficient key with a retained entry answers wrongly. Sufficiency of the "
-             "concrete keys over the explicit read-set of each stage: full strength for the T1 stage key (after three repairs), partial + "
-             "one machine-checked negation witness per omitted dimension for the T2 stage key (label map, index identity, hybrid/rest) and "
-             "the turn-level key (agent, T1 labels, node labels, T2 config, memory adds, now). The owner filter is keyed: a hit was computed "
+             "concrete keys over the explicit read-set of each stage: full strength for the T1 stage key (EtagFaithful) and for the repaired "
+             "turn-level key (graph-etag and index-version faithfulness as named hypotheses); for the repaired T2 stage key (label map, "
+             "hybrid settings + GEL digest, index identity, whole quality digest keyed) sufficiency under IndexVersionFaithful and equal `rest` "
+             "(custom encoder object / alias-file contents), with negation witnesses for an in-place upsert, a digest dropping a leaf and `rest`; "
+             "the pre-repair keys keep their machine-checked witnesses as history. The owner filter is keyed: a hit was computed "
              "for the same owner. Tie: cache-on/off differential over real run_turn histories, exact correspondence of the key functions, "
              "and Lean-evaluated sufficiency monitors on the real stages."),
     "note": ("`diag_only` (only cache diagnostics may differ) is covered by the differential alone: the exempt list is fixed in "
@@ -91,7 +93,7 @@ BUDGET = {"quick": 120, "thorough": 2600, "search": 2500}
 MAX_FAILURES = 30      # a verdict exists: stop generating (bounds the run time under a grossly broken cache)
 RUNOPS_BUDGET = {"quick": 200, "thorough": 6000, "search": 6000}
 T2_PAYLOAD_BASE = {"q", "exact_recent_days", "sim_threshold", "clusters_top_m", "owner_scope", "owner", "k_retrieval", "now",
-                   "ranking", "residual_cap", "k_surface"}
+                   "ranking", "residual_cap", "k_surface", "label_map"}
 
 
 # ------------------------------------------------------------------------------------------------
@@ -182,6 +184,8 @@ def check_keys(case: dict, on: List[dict], batch: Batch, ti_offset: int = 0) -> 
     """Python-side part of the key correspondence (shape + pass-through components); the computed components go
     to the driver through `batch`.  Returns the list of differences found here."""
     diffs: List[str] = []
+    turn_ctx_seen: Dict[str, str] = {}
+    turn_dig_seen: Dict[str, str] = {}
     for ti, o in enumerate(on):
         x1 = o.get("x1")
         if x1 and "__err__" not in x1["raw"]:
@@ -212,7 +216,10 @@ def check_keys(case: dict, on: List[dict], batch: Batch, ti_offset: int = 0) -> 
                     continue
                 pl = json.loads(k[2])
                 want = set(T2_PAYLOAD_BASE) | ({"slice_t2_k"} if raw["_sliceK"] is not None else set()) | \
-                    ({"q_digest"} if raw["quality"] is not None else set())
+                    ({"q_digest"} if raw["quality"] is not None else set()) | \
+                    ({"hybrid", "gel"} if raw.get("_hybrid_on") else set())
+                if len(k) < 5:
+                    diffs.append(f"turn {ti}: T2 ckey has no index-identity component: {json.dumps(k)[:200]}")
                 if not want <= set(pl):        # a FINER key (extra fields) stays sufficient: tolerated
                     diffs.append(f"turn {ti}: T2 ckey payload fields {sorted(pl)} lack {sorted(want - set(pl))}")
                     continue
@@ -235,10 +242,21 @@ def check_keys(case: dict, on: List[dict], batch: Batch, ti_offset: int = 0) -> 
                 batch.add({"c": "c05.t2q", "text": raw["text"], "labels": raw["labels"]}, kind="t2q", ti=ti,
                           real=H.cps(pl["q"]), case=case)
         for xt in o.get("xturn") or []:
-            k = xt["real"]
+            k = list(xt["real"])
             raw = xt.get("raw")
             if raw is None or xt.get("ns") != "t2:semantic":
                 continue
+            if not (k and isinstance(k[-1], str) and k[-1].startswith("ctx:")):
+                diffs.append(f"turn {ti}: turn-level key carries no context digest: {json.dumps(k)[:200]}")
+                continue
+            digest = k.pop()
+            tup = json.dumps(xt.get("ctx"), sort_keys=True)
+            seen_ctx = turn_ctx_seen.setdefault(digest, tup)
+            seen_dig = turn_dig_seen.setdefault(tup, digest)
+            if seen_ctx != tup:
+                diffs.append(f"turn {ti}: one context digest {digest} for two different T2 read-sets {seen_ctx[:150]} / {tup[:150]}")
+            if seen_dig != digest:
+                diffs.append(f"turn {ti}: two context digests for one T2 read-set {tup[:200]}")
             real = {"ver": H.cps(str(k[0])), "text": H.cps(str(k[1])),
                     "sliceK": (H.code(k[2]) if len(k) > 2 else None)}
             if len(k) not in (2, 3):
